@@ -1007,6 +1007,11 @@ def c14(ctx):
     def extra(ctx, c, stats):
         if not c.ok or c.skip:
             return
+        mt = v5(c).get('mctaken', '-')
+        if mt != '-':
+            ctx.violations.append(('MustConsume provider(s) %s included although no included provider after them takes the type (the conclusion of '
+                                   'C14_bound_chain_mustconsume_is_consumed fails on the implementation\'s bound chain, case %s)'
+                                   % (mt, c.key), write_replay(ctx, 'case_%s.txt' % c.key, c.text()), True))
         mc = v5(c).get('mustconsume', '-')
         if mc != '-':
             if known_open('C14', 'mustconsume_shadowed'):
